@@ -58,8 +58,13 @@ ASSUMPTIONS = [
     'excluded (DESIGN 4.2): mesh-validity clauses after delete_column / delete_node / add_node / add_column / '
     'add_connection / delete_connection (primitives promise no valid mesh); they are checked again after reduce()',
     'excluded: delete_node of a node still used by a column; add_connection between columns that share no side; '
-    'add_* with a name already present; deleting the atmosphere (first) layer; renaming onto a name in use '
-    '(swaps through the list form) - the methods make no statement about these',
+    'add_* with a name already present; deleting the atmosphere (first) layer; renaming onto a name that is still '
+    'in use after the renaming - the methods make no statement about these.  Simultaneous renamings whose new names '
+    'are old names of the same list (swap, cycle, identity entry) ARE in the alphabet: the result is a set of '
+    'distinct names, and each renamed object must carry the name the map gives it',
+    'refine() of a region that holds a column with more than four sides (documented as unsupported; alone or with '
+    'one other column, both orders, 4 modes): it may refuse by a message or by an exception, but the geometry must '
+    'be canonically unchanged and keep the invariant',
     'excluded: delete_layer that would leave a column with no layer below its surface (a column without blocks)',
     'excluded: reduce() to a set of columns that is not edge-connected (quantifier: connected geometries)',
     'a finding that concerns only derived structures (node.column, col.connection, col.neighbour, connection dict '
